@@ -2,6 +2,8 @@ mod rng;
 mod usersink;
 mod s_sink;
 mod dump;
+mod sig;
+mod s_enc;
 
 use std::io::{BufRead, Write};
 
@@ -13,6 +15,7 @@ fn run_line(line: &str) -> String {
     let restc = rest.to_string();
     let r = std::panic::catch_unwind(move || match streamc.as_str() {
         "SINK" => s_sink::run(&idc, &restc),
+        "ENC" => s_enc::run(&idc, &restc),
         _ => format!("{} unknown-stream", idc),
     });
     match r { Ok(s) => s, Err(_) => format!("{} panic", id) }
@@ -28,11 +31,29 @@ fn main() {
             let mut out = String::new();
             match stream.as_str() {
                 "SINK" => s_sink::gen(seed, n, &mut out),
+                "ENC" => s_enc::gen(seed, n, &mut out),
                 _ => panic!("unknown stream"),
             }
             print!("{}", out);
         }
         Some("dump") => dump::dump(),
+        Some("augment") => {
+            std::panic::set_hook(Box::new(|_| {}));
+            let stdin = std::io::stdin();
+            let stdout = std::io::stdout();
+            let mut o = std::io::BufWriter::new(stdout.lock());
+            for line in stdin.lock().lines() {
+                let line = line.unwrap();
+                if line.trim().is_empty() || line.starts_with('#') { continue; }
+                let (stream, rest) = line.split_once(' ').unwrap();
+                let (_id, rest) = rest.split_once(' ').unwrap_or((rest, ""));
+                let l = match stream {
+                    "ENC" => s_enc::augment(&line, rest),
+                    _ => line.clone(),
+                };
+                writeln!(o, "{}", l).unwrap();
+            }
+        }
         Some("run") => {
             std::panic::set_hook(Box::new(|_| {}));
             let stdin = std::io::stdin();
